@@ -324,6 +324,38 @@ impl Session {
                 Ok(v) => json!({"ok":true,"views":Self::views(v)}),
                 Err(e) => self.err_json(e),
             },
+            "break_fn_deferred" => match self.d().set_breakpoint_at_fn(&s("name")) {
+                Ok(v) => json!({"ok":true,"views":v.iter().map(view_json).collect::<Vec<_>>(),"deferred":false}),
+                Err(_) => {
+                    self.d().add_deferred_at_function(&s("name"));
+                    json!({"ok":true,"views":[],"deferred":true})
+                }
+            },
+            "break_line_deferred" => match self.d().set_breakpoint_at_line(&s("file"), u("line")) {
+                Ok(v) => json!({"ok":true,"views":v.iter().map(view_json).collect::<Vec<_>>(),"deferred":false}),
+                Err(_) => {
+                    self.d().add_deferred_at_line(&s("file"), u("line"));
+                    json!({"ok":true,"views":[],"deferred":true})
+                }
+            },
+            "sharedlibs" => {
+                let libs: Vec<Value> = self.d().shared_libs().iter().map(|r| json!({"path": r.path.display().to_string(), "has_debug_info": r.has_debug_info, "range": r.range.as_ref().map(|x| json!([x.from.as_u64(), x.to.as_u64()]))})).collect();
+                // the kernel's view: file-backed executable objects of the process
+                let pid = self.pid();
+                let maps = std::fs::read_to_string(format!("/proc/{pid}/maps")).unwrap_or_default();
+                let mut objs: std::collections::BTreeMap<String, (u64, u64)> = Default::default();
+                for l in maps.lines() {
+                    let parts: Vec<&str> = l.split_whitespace().collect();
+                    if parts.len() >= 6 && parts[5].starts_with('/') {
+                        let (a, b) = parts[0].split_once('-').unwrap_or(("0", "0"));
+                        let (a, b) = (u64::from_str_radix(a, 16).unwrap_or(0), u64::from_str_radix(b, 16).unwrap_or(0));
+                        let e = objs.entry(parts[5].to_string()).or_insert((a, b));
+                        e.0 = e.0.min(a);
+                        e.1 = e.1.max(b);
+                    }
+                }
+                json!({"ok": true, "libs": libs, "maps": objs.iter().map(|(p, (a, b))| json!({"path": p, "from": a, "to": b})).collect::<Vec<_>>()})
+            }
             "remove_addr" => {
                 let addr = if cmd["global"].as_bool().unwrap_or(false) {
                     Address::Global(GlobalAddress::from(u("addr")))
@@ -564,6 +596,42 @@ impl Session {
             "dqe" => crate::valw::dqe(self, cmd),
             "vard" => crate::valw::vard(self, cmd),
             "c08_sweep" => crate::c08w::sweep(self, cmd),
+            "c17_names" => {
+                let fts: Vec<String> = serde_json::from_value(cmd["fn_templates"].clone()).unwrap_or_default();
+                let files: Vec<String> = serde_json::from_value(cmd["file_templates"].clone()).unwrap_or_default();
+                let regexes: Vec<String> = serde_json::from_value(cmd["regexes"].clone()).unwrap_or_default();
+                let line = u("line");
+                let mut f_out = serde_json::Map::new();
+                for t in fts {
+                    let r = match self.d().set_breakpoint_at_fn(&t) {
+                        Ok(v) => {
+                            let addrs: Vec<Value> = v.iter().map(|b| view_json(b)["place_addr"].clone()).collect();
+                            json!({"addrs": addrs})
+                        }
+                        Err(e) => json!({"addrs": [], "err": format!("{e}")}),
+                    };
+                    let _ = self.d().remove_breakpoint_at_fn(&t);
+                    f_out.insert(t, r);
+                }
+                let mut l_out = serde_json::Map::new();
+                for t in files {
+                    let r = match self.d().set_breakpoint_at_line(&t, line) {
+                        Ok(v) => {
+                            let fs: Vec<Value> = v.iter().map(|b| view_json(b)["file"].clone()).collect();
+                            json!({"files": fs})
+                        }
+                        Err(e) => json!({"files": [], "err": format!("{e}")}),
+                    };
+                    let _ = self.d().remove_breakpoint_at_line(&t, line);
+                    l_out.insert(t, r);
+                }
+                let mut s_out = serde_json::Map::new();
+                for r in regexes {
+                    let names: Vec<String> = self.d().get_symbols(&r).map(|v| v.iter().map(|s| s.name.to_string()).collect()).unwrap_or_default();
+                    s_out.insert(r, json!({"names": names}));
+                }
+                json!({"ok": true, "fn": f_out, "file": l_out, "sym": s_out})
+            }
             "c15_sweep" => {
                 let mut v = crate::c15w::sweep(self);
                 v["ok"] = json!(true);
